@@ -43,9 +43,9 @@ def main():
         env = dict(os.environ, VERIF_REPO=tmp, VERIF_OUT=tmp + "/out")
         for pid in a.props:
             r = subprocess.run([HERE + "/check", pid], env=env, capture_output=True, text=True)
-            lines = [l for l in r.stdout.splitlines() if l.startswith(("VIOLATION", "KNOWN", "UNDECIDED", pid + " "))]
+            lines = [l for l in r.stdout.splitlines() if l.startswith(("VIOLATION", "KNOWN", "UNDECIDED", "BOUNDED", pid + " "))]
             print("%s exit=%d" % (pid, r.returncode))
-            for l in lines[:6]:
+            for l in lines[:8]:
                 print("   ", l[:300])
             if r.returncode == 3:
                 print(r.stderr[-1500:])
